@@ -68,7 +68,10 @@ def cases(draw):
         # eps = w/10: the search refines [0,1] uniformly for tens of thousands of trials (8,000-70,000) before the well,
         # which is narrower than the intervals of the first few thousand trials, decides
         w = float(2.0 ** -13) * draw(st.floats(0.3, 0.5))
-        c = draw(st.floats(0.05, 0.95))
+        # (the centre of the well by the cell of the 2^-13 grid it lies in and its half of the cell: the search refines
+        # dyadically, so whether the well sits in a left or a right half is what matters)
+        c = (draw(st.integers(410, 7782)) + draw(st.sampled_from([0.25, 0.75, 0.5])) +
+             draw(st.floats(-0.2, 0.2))) / 8192.0
         case = {"recipe": {"n": 1, "lower": [0.0], "upper": [1.0], "density": 10,
                            "obj": {"family": "needle", "c": [c], "w": w, "h": 2.0 * w}},
                 "params": {"r": draw(st.sampled_from([4.0, 4.5, 6.0])), "eps": w / 4.0, "itersLimit": 100000},
